@@ -11,7 +11,10 @@ ALIASES = {"ci": "commit", "st": "status -s", "lg": "log --oneline", "c2": "ci",
            "sh": "!git status -s", "amend": "commit --amend --no-edit", "qs": "-c core.abbrev=9 status -s",
            # quoting: git does not treat a backslash inside single quotes as an escape
            "fmt": "log --format='%s\\t%an' -3", "gr": "grep -c -e 'L[0-9]\\+ ' -- .", "dq": "log --format=\"%h\\\\%s\" -2",
-           "cm": "commit --allow-empty -q -m 'C:\\tmp\\notes and \\n text'", "sp": "log  --oneline   -2"}
+           "cm": "commit --allow-empty -q -m 'C:\\tmp\\notes and \\n text'", "sp": "log  --oneline   -2",
+           # the real git dies by a signal (killed from inside a shell alias): the wait status must be mirrored as is
+           "diekill": "!kill -KILL $PPID", "dieterm": "!kill -TERM $PPID", "diepipe": "!kill -PIPE $PPID",
+           "diehup": "!kill -HUP $PPID", "exit3": "!exit 3", "exit200": "!exit 200"}
 
 READ_ONLY = [
     ["status", "--porcelain"], ["status", "-s", "-b"], ["--no-pager", "log", "--oneline", "-5"],
@@ -27,6 +30,7 @@ READ_ONLY = [
     ["rev-list", "--count", "HEAD"], ["merge-base", "HEAD", "HEAD"], ["check-ignore", "-q", "x"], ["grep", "-c", "L1", "--", "."],
     ["--no-pager", "-c", "color.ui=never", "diff", "--name-status", "HEAD~1"], ["notes", "list"],
     ["log", "-1", "--format=%H", "--", "nonexistent"], ["-p", "log", "-1", "--format=%s"], ["--paginate", "status", "-s"],
+    ["diekill"], ["dieterm"], ["diepipe"], ["diehup"], ["exit3"], ["exit200"],
 ]
 MUTATING = [
     ["tag", "t{N}"], ["branch", "b{N}"], ["cm"], ["cm"], ["tag", "-d", "t{N}"], ["ci", "--allow-empty", "-m", "empty{N}"],
